@@ -113,6 +113,7 @@ class BinaryBinnedAUROC(Metric[tuple[torch.Tensor, torch.Tensor]]):
         _binary_binned_auroc_update_input_check(
             input, target, self.num_tasks, self.threshold
         )
+        input, target = input.detach(), target.detach()
         self.inputs.append(input)
         self.targets.append(target)
         return self
@@ -226,6 +227,7 @@ class MulticlassBinnedAUROC(Metric[tuple[torch.Tensor, torch.Tensor]]):
         target = target.to(self.device)
 
         _multiclass_binned_auroc_update_input_check(input, target, self.num_classes)
+        input, target = input.detach(), target.detach()
         self.inputs.append(input)
         self.targets.append(target)
         return self
